@@ -3362,6 +3362,7 @@ def deinterpolate_logging_args(source: str) -> str:
 @processing.fix
 def _keys_to_items(source: str) -> Iterable[Tuple[ast.AST, ast.AST]]:
     root = core.parse(source)
+    used_names = {name for _, name in _iter_identifier_mentions(root)}
     comprehension_template = ast.comprehension(
         target=core.Wildcard("target", object),
         iter=ast.Call(
@@ -3395,6 +3396,9 @@ def _keys_to_items(source: str) -> Iterable[Tuple[ast.AST, ast.AST]]:
 
         node_target_name = f"{core.unparse(value)}_{core.unparse(target)}"
         node_target_name = re.sub("[^a-zA-Z]", "_", node_target_name)
+        if node_target_name in used_names:
+            continue
+
         yield (
             node.generators[0].iter,
             ast.Call(func=ast.Attribute(value=value, attr="items"), args=[], keywords=[]),
@@ -3449,6 +3453,7 @@ def _items_to_values(source: str) -> Iterable[Tuple[ast.AST, ast.AST]]:
 @processing.fix
 def _for_keys_to_items(source: str) -> Iterable[Tuple[ast.AST, ast.AST]]:
     root = core.parse(source)
+    used_names = {name for _, name in _iter_identifier_mentions(root)}
     template = ast.For(
         target=core.Wildcard("target", object),
         iter=ast.Call(
@@ -3475,6 +3480,9 @@ def _for_keys_to_items(source: str) -> Iterable[Tuple[ast.AST, ast.AST]]:
 
         node_target_name = f"{core.unparse(value)}_{core.unparse(target)}"
         node_target_name = re.sub("[^a-zA-Z]", "_", node_target_name)
+        if node_target_name in used_names:
+            continue
+
         yield (
             node.iter,
             ast.Call(func=ast.Attribute(value=value, attr="items"), args=[], keywords=[]),
